@@ -20,6 +20,7 @@ func init() {
 }
 
 func c14(c *Ctx) {
+	c.NoDiscardedErrors("errors/none-dropped", []string{"lfsc"}, discardBackup, 1)
 	p := c.P
 	sb := "litefs.(*Store).streamBackupDB"
 	db := "litefs.(*Store).DB(p0, p2)"
